@@ -28,7 +28,7 @@ func init() {
 				"pipeline limiting is enabled and passes that semaphore on.",
 			NotCovered: "the bound (current <= stop) and liveness over all schedules: they follow from the extracted transition " +
 				"table and the lock/wake-up discipline by an invariant argument that the checker does not mechanise.",
-			Rules: map[string]string{"C18-RC": "class rules (error chains, shadowed results, character classes, crossed arguments, pool constructors, array pools, loop completeness, loop-carried buffers, replacing setters, complete clones, Grow arithmetic, pooled-buffer escape, sorted searches, fresh decode targets, per-iteration objects, whole-message copies, codec guards) over the packages this property rests on", "C18-R10": "Shutdown waits for the connections before releasing the worker pool", "C18-R1": "counter transition tables", "C18-R2": "counter state only under counterCond.L",
+			Rules: map[string]string{"C18-R11": "an accepted connection is handed to its worker or closed on every path; closeListeners closes both listeners unconditionally", "C18-RC": "class rules (error chains, shadowed results, character classes, crossed arguments, pool constructors, array pools, loop completeness, loop-carried buffers, replacing setters, complete clones, Grow arithmetic, pooled-buffer escape, sorted searches, fresh decode targets, per-iteration objects, whole-message copies, codec guards) over the packages this property rests on", "C18-R10": "Shutdown waits for the connections before releasing the worker pool", "C18-R1": "counter transition tables", "C18-R2": "counter state only under counterCond.L",
 				"C18-R3": "Broadcast after every state change that can release waiters; no Signal",
 				"C18-R4": "slot taken/released exactly once on every accept/close path", "C18-R8": "Close marks the listener closed and wakes all waiting accepts on every path, also when the underlying listener's Close fails",
 				"C18-R7": "limiter wiring: New builds one shared counter with the configured thresholds; Limit hands every listener that shared counter and condition variable; the limiting ListenConfig wraps every stream listener; dnssvc wraps the listen config whenever a limiter is configured; the YAML thresholds reach New unchanged",
@@ -37,6 +37,8 @@ func init() {
 }
 
 func runC18(c *an.Ctx) {
+	c.Floor("C18-R11", 2)
+	c18AcceptedConn(c)
 	classSweep(c, "C18")
 	c.Floor("C18-R10", 1)
 	c18ShutdownOrder(c)
@@ -690,5 +692,118 @@ func c18ShutdownOrder(c *an.Ctx) {
 	}
 	if n == 0 {
 		c.Und("C18-R10", "worker pool release on shutdown", token.NoPos, "no Shutdown method releasing a worker pool found")
+	}
+}
+
+// c18AcceptedConn: a connection that Accept has handed out (it already holds a
+// slot of the shared connection limiter) is, on every path of acceptTCPConn,
+// given to the worker that serves and closes it, or closed; no path returns
+// with the connection simply dropped.  And closeListeners closes every listener
+// whatever the result of closing the others.
+func c18AcceptedConn(c *an.Ctx) {
+	const k = "dnsserver.(*ServerDNS).acceptTCPConn"
+	if fn := c.Fn(k); fn == nil {
+		c.Und("C18-R11", k+" keeps or closes the accepted connection", token.NoPos, "anchor not found")
+	} else {
+		c.Analysed(k)
+		var accept *ssa.Call
+		for _, call := range an.Calls(fn) {
+			if cv, ok := call.(*ssa.Call); ok && call.Common().IsInvoke() && call.Common().Method.Name() == "Accept" {
+				accept = cv
+			}
+		}
+		if accept == nil {
+			c.Und("C18-R11", k+" keeps or closes the accepted connection", fn.Pos(), "no Accept call")
+		} else {
+			// the success edge of Accept's error test
+			var okBlock *ssa.BasicBlock
+			var errEdges []an.CondEdge
+			for _, b := range fn.Blocks {
+				ifi, isIf := b.Instrs[len(b.Instrs)-1].(*ssa.If)
+				if !isIf {
+					continue
+				}
+				for _, br := range []bool{true, false} {
+					e := an.CondEdge{If: ifi, Branch: br}
+					if an.ErrNonNilEdgeOf(e, accept) {
+						okBlock = an.CondEdge{If: ifi, Branch: !br}.To()
+						errEdges = append(errEdges, e)
+					}
+				}
+			}
+			if okBlock == nil {
+				c.Und("C18-R11", k+" keeps or closes the accepted connection", fn.Pos(), "the error test of Accept was not recognised")
+			} else {
+				// the connection value
+				var conn ssa.Value
+				if accept.Referrers() != nil {
+					for _, r := range *accept.Referrers() {
+						if ex, isEx := r.(*ssa.Extract); isEx && ex.Index == 0 {
+							conn = ex
+						}
+					}
+				}
+				uses := func(in ssa.Instruction) bool {
+					switch x := in.(type) {
+					case *ssa.MakeClosure:
+						for _, b := range x.Bindings {
+							if b == conn {
+								return true
+							}
+							// captured through a cell
+							if al, isAl := b.(*ssa.Alloc); isAl {
+								for _, st := range an.Stores(al) {
+									if st.Val == conn {
+										return true
+									}
+								}
+							}
+						}
+					case ssa.CallInstruction:
+						if x.Common().IsInvoke() && x.Common().Method.Name() == "Close" && x.Common().Value == conn {
+							return true
+						}
+					}
+					return false
+				}
+				// from the Accept itself: the only exits that need not dispose of the connection are those through
+				// the error edge of Accept (there is no connection then)
+				leak := exitAvoiding(accept, errEdges, func(in ssa.Instruction) bool {
+					// only the hand-over to the worker or a Close disposes of the connection; the registration in
+					// tcpConns does not
+					if mc, isMC := in.(*ssa.MakeClosure); isMC {
+						if f, isF := mc.Fn.(*ssa.Function); isF {
+							handsOver := false
+							for _, call := range an.Calls(f) {
+								if strings.HasSuffix(an.CalleeName(call), ").serveTCPConn") {
+									handsOver = true
+								}
+							}
+							return handsOver && uses(in)
+						}
+					}
+					_, isCall := in.(ssa.CallInstruction)
+					return isCall && uses(in)
+				})
+				c.Check(!leak, "C18-R11", k+" keeps or closes the accepted connection", accept.Pos(),
+					"every path after a successful Accept hands the connection to serveTCPConn or closes it",
+					"a path returns after a successful Accept without handing the connection to its worker or closing it: the connection and its slot in the shared limiter are lost")
+			}
+		}
+	}
+	const cl = "dnsserver.(*ServerBase).closeListeners"
+	if fn := c.Fn(cl); fn == nil {
+		c.Und("C18-R11", cl+" closes every listener", token.NoPos, "anchor not found")
+	} else {
+		c.Analysed(cl)
+		closes := 0
+		for _, call := range an.Calls(fn) {
+			if call.Common().IsInvoke() && call.Common().Method.Name() == "Close" {
+				closes++
+			}
+		}
+		c.Check(closes >= 2 && len(an.Returns(fn)) == 1, "C18-R11", cl+" closes every listener", fn.Pos(),
+			"both listeners are closed on the single path to the only return",
+			fmt.Sprintf("%d Close calls and %d returns: an early return after a failed Close leaves the other listener open, and its accept loop keeps its limiter slot", closes, len(an.Returns(fn))))
 	}
 }
